@@ -120,6 +120,17 @@ CLAIMED = {
          "position write is the width-bounded replay (rule X2). Necessary conditions; positions of late-detected errors are not decided.",
     technique="CFG path query on the lexer loop + AST template matching of the position formulas and handler assembly",
     ref="4/C18"),
+ "C01": dict(
+    text="Necessary conditions of 'accepts exactly the valid scripts', each decided for all inputs because it is decided on the code: L1/L2 every "
+         "lexer rule selects the same token extents as an independently written RFC 5228 reference and overlapping rules are ordered as in the "
+         "reference (regex -> automaton with one-symbol look-ahead, product construction, selection discipline proved from the pattern shape); "
+         "L3/L4 flags, master-pattern construction, letter case; T1 the statically evaluated command tables (29 commands, 66 slots) equal a reviewed "
+         "reference table, T2/T3 slot well-formedness and class-attribute consistency, T4 lookup-scheme exhaustiveness, T5 optional-slot "
+         "reachability; P1-P9 state-machine disciplines (verdicts consumed, end-of-input typestate, role checks dominate adoption, bracket pairing, "
+         "block/semicolon agreement, must_follow before recording, expected-set enforcement, lower-casing) as CFG dominance facts; G2-G6 argument-"
+         "interpreter disciplines. That the state machine as a whole recognises exactly the grammar is NOT decided.",
+    technique="regex-to-DFA language/extent comparison + constant evaluation of tables vs reference + CFG dominance with edge facts",
+    ref="4/C01"),
 }
 NA = {}
 
